@@ -2,8 +2,11 @@ import BfeVerif.Common.Proto
 import BfeVerif.C10.Model
 /-!
   C10 driver.
-  op   = `t=<host>tag>product&…>;v=<ip>product&…>;d=<default product>;h=<request host>;ip=<vip|nil>`
-  impl = `ok tag=<HostTag> product=<Product>` | `err:noproduct tag= product=`
+  op   = `t=<host>tag>product&…>;v=<addr text>~<hex of ParseIP(text).To16() | x>>product&…;d=<default product>;`
+         `h=<request host>;ip=<nil | hex bytes of Session.Vip | ->;u=<cp>:<lower cp>,…`
+         a host is ASCII text, or `x:<hex bytes>` (arbitrary bytes; decoded to runes as Go does, invalid → U+FFFD);
+         `u` lists Go's `unicode.ToLower` for the non-ASCII runes that occur (external table, oracle values)
+  impl = `ok tag=<HostTag> product=<Product>` | `err:noproduct tag= product=` | `err:load` (VIP file rejected)
 -/
 namespace BfeVerif.C10
 open BfeVerif.Proto
@@ -11,57 +14,140 @@ open BfeVerif.Proto
 def kv (fields : List String) (k : String) : Option String :=
   (fields.find? (fun f => f.startsWith (k ++ "="))).map (fun f => (f.drop (k.length + 1)).toString)
 
+def isCont (b : UInt8) : Bool := 0x80 ≤ b && b ≤ 0xBF
+
+/-- Go's `[]rune(s)` / `range s`: UTF-8 decoding in which every byte that does not start a valid encoding
+    becomes U+FFFD (utf8.DecodeRune's acceptance table: no overlong forms, no surrogates, ≤ U+10FFFF). -/
+def decodeAux : Nat → List UInt8 → List Char
+  | 0, _ => []
+  | _, [] => []
+  | n + 1, b0 :: rest =>
+    let bad := Char.ofNat 0xFFFD :: decodeAux n rest
+    if b0 < 0x80 then Char.ofNat b0.toNat :: decodeAux n rest
+    else if 0xC2 ≤ b0 && b0 ≤ 0xDF then
+      match rest with
+      | b1 :: r1 =>
+        if isCont b1 then Char.ofNat ((b0.toNat % 32) * 64 + b1.toNat % 64) :: decodeAux n r1 else bad
+      | _ => bad
+    else if 0xE0 ≤ b0 && b0 ≤ 0xEF then
+      match rest with
+      | b1 :: b2 :: r2 =>
+        let lo : UInt8 := if b0 == 0xE0 then 0xA0 else 0x80
+        let hi : UInt8 := if b0 == 0xED then 0x9F else 0xBF
+        if lo ≤ b1 && b1 ≤ hi && isCont b2 then
+          Char.ofNat ((b0.toNat % 16) * 4096 + (b1.toNat % 64) * 64 + b2.toNat % 64) :: decodeAux n r2
+        else bad
+      | _ => bad
+    else if 0xF0 ≤ b0 && b0 ≤ 0xF4 then
+      match rest with
+      | b1 :: b2 :: b3 :: r3 =>
+        let lo : UInt8 := if b0 == 0xF0 then 0x90 else 0x80
+        let hi : UInt8 := if b0 == 0xF4 then 0x8F else 0xBF
+        if lo ≤ b1 && b1 ≤ hi && isCont b2 && isCont b3 then
+          Char.ofNat ((b0.toNat % 8) * 262144 + (b1.toNat % 64) * 4096 + (b2.toNat % 64) * 64 + b3.toNat % 64)
+            :: decodeAux n r3
+        else bad
+      | _ => bad
+    else bad
+
+def decodeGo (bs : List UInt8) : List Char := decodeAux bs.length bs
+
+/-- a host field: ASCII text or `x:<hex>` -/
+def parseHost (s : String) : Option (List Char) :=
+  if s.startsWith "x:" then (bytesOfHex (s.drop 2).toString).map decodeGo else some s.toList
+
 def parseEntries (s : String) : Option (List Entry) :=
   if s == "" then some [] else
   (s.splitOn "&").mapM fun e =>
     match e.splitOn ">" with
-    | [h, t, p] => some { host := h.toList, route := { product := p, tag := t } }
+    | [h, t, p] => (parseHost h).map fun hc => { host := hc, route := { product := p, tag := t } }
     | _ => none
 
-def parseVips (s : String) : Option (List (String × String)) :=
+/-- VIP table: `none` inside = an address the loader rejects -/
+def parseVips (s : String) : Option (List (Option (List UInt8) × String)) :=
   if s == "" then some [] else
   (s.splitOn "&").mapM fun e =>
     match e.splitOn ">" with
-    | [ip, p] => some (ip, p)
+    | [a, p] =>
+      match a.splitOn "~" with
+      | [_, hx] => if hx == "x" then some (none, p) else (bytesOfHex hx).map fun b => (some b, p)
+      | _ => none
     | _ => none
+
+def parseLowerTable (s : String) : List (Nat × Nat) :=
+  if s == "" then [] else
+  (s.splitOn ",").filterMap fun e =>
+    match e.splitOn ":" with
+    | [a, b] => match a.toNat?, b.toNat? with
+      | some x, some y => some (x, y)
+      | _, _ => none
+    | _ => none
+
+/-- the rune map of `strings.ToLower`: ASCII by the model, the rest from the oracle table -/
+def mkLc (tbl : List (Nat × Nat)) (c : Char) : Char :=
+  if c.toNat < 128 then lowerC c
+  else match tbl.lookup c.toNat with
+    | some y => Char.ofNat y
+    | none => c
 
 def render : Option Route → String
   | some r => "ok tag=" ++ r.tag ++ " product=" ++ r.product
   | none => "err:noproduct tag= product="
 
-def run (op _impl : String) : Ans :=
+def nodupKeys (ks : List (List UInt8 × String)) : Bool :=
+  (List.range ks.length).all fun i => (List.range i).all fun j =>
+    (ks.getD i ([], "")).1 != (ks.getD j ([], "")).1 || (ks.getD i ([], "")).2 == (ks.getD j ([], "")).2
+
+def run (op impl : String) : Ans :=
   let f := op.splitOn ";"
   match kv f "t", kv f "v", kv f "d", kv f "h", kv f "ip" with
   | some t, some v, some d, some h, some ip =>
-    match parseEntries t, parseVips v with
-    | some es, some vips =>
-      let vip := if ip == "nil" then none else some ip
-      let host := h.toList
-      let m := lookupHostTagAndProduct es vips d host vip
-      let wf := wfB es
-      let spec := specLookup es vips d host vip
-      let ps := patterns es
-      let l := probeLabels host
+    match parseEntries t, parseVips v, parseHost h with
+    | some es, some vipsO, some host =>
+      if vipsO.any (·.1.isNone) then
+        { model := "err:load", verdict := "ok", tags := ["vip-load-error"] }
+      else
+      let vips : List (List UInt8 × String) := vipsO.filterMap fun (a, p) => a.map fun k => (k, p)
+      let vipB : Option (Option (List UInt8)) := if ip == "nil" then some none else (bytesOfHex ip).map some
+      match vipB with
+      | none => { model := "bad-op", verdict := "skip" }
+      | some vip =>
+      let lc := mkLc (parseLowerTable ((kv f "u").getD ""))
+      let m := lookupHostTagAndProduct lc es vips d host vip
+      let wf := wfB lc es && nodupKeys vips
+      let spec := specLookup lc es vips d host vip
+      let ps := patterns lc es
+      let l := specProbeLabels lc host
+      let vipHit := (vip.bind fun x => (to16 x).bind fun k => vips.lookup k).isSome
       let stage :=
         if (specExact ps l).isSome then "exact"
         else if (specWild ps l).isSome then "wild"
-        else if (vip.bind fun x => vips.lookup x).isSome then "vip"
+        else if vipHit then "vip"
         else if d != "" then "default" else "none"
+      let bracket := (lower lc host).head? == some '['
       let nwild := ((properSuffixes l).filter fun s => (specExact ps (star :: s)).isSome).length
+      let nonAscii := host.any (·.toNat ≥ 128) || es.any (·.host.any (·.toNat ≥ 128))
+      let vipTag := match vip with
+        | none => "vip-nil"
+        | some x => if x.length == 4 then "vip-4" else if x.length == 16 then "vip-16" else "vip-odd"
       let verdict :=
         if !wf then "skip"
-        else if _impl == render spec then "ok"
+        else if impl == render spec then "ok"
+        else if bracket then "FAIL:ipv6-literal-host"
         else "FAIL:" ++ stage
       { model := render m
         verdict := verdict
-        tags := [stage] ++ (if nwild ≥ 2 then ["nested-wild"] else [])
-                ++ (if h.any (· == ':') then ["port"] else [])
-                ++ (if h.endsWith "." || (h.splitOn ":").head!.endsWith "." then ["dot"] else [])
-                ++ (if h.any Char.isUpper then ["upper"] else [])
+        tags := [stage, vipTag] ++ (if nwild ≥ 2 then ["nested-wild"] else [])
+                ++ (if host.contains ':' then ["port"] else [])
+                ++ (if bracket then ["bracket"] else [])
+                ++ (if nonAscii then ["non-ascii"] else [])
+                ++ (if host.contains (Char.ofNat 0xFFFD) || es.any (·.host.contains (Char.ofNat 0xFFFD)) then ["invalid-utf8"] else [])
+                ++ (if host.any Char.isUpper then ["upper"] else [])
                 ++ (if ps.length < es.length then ["ignored-pattern"] else [])
                 ++ (if !wf then ["dup"] else [])
+                ++ (if vips.length > 0 then ["vip-table"] else [])
                 ++ (if es.length ≥ 2 then ["nt"] else []) }
-    | _, _ => { model := "bad-op", verdict := "skip" }
+    | _, _, _ => { model := "bad-op", verdict := "skip" }
   | _, _, _, _, _ => { model := "bad-op", verdict := "skip" }
 
 end BfeVerif.C10
